@@ -81,6 +81,10 @@ type kdTree struct {
 	// knnTable issues KNN(ks[i], ps[i]) one after the other, KEEPING the returned slices, and reports every
 	// answer twice: as it was when its call returned, and as the retained slice reads after the last call.
 	knnTable func(ks []int, ps []V) (atReturn, atEnd [][]V)
+	// the small wrappers: Dist (= distance to the nearest neighbour), Empty, Leaf
+	dist  func(V) float64
+	empty func() bool
+	leaf  func() bool
 }
 
 func newKD(dim int, pts []V) (kdTree, *kdNode) {
@@ -113,7 +117,8 @@ func newKD(dim int, pts []V) (kdTree, *kdNode) {
 					atEnd = append(atEnd, conv(r))
 				}
 				return
-			}}, kdOf3(t)
+			},
+			func(p V) float64 { return t.Dist(c3(p)) }, t.Empty, t.Leaf}, kdOf3(t)
 	}
 	ps := make([]model2d.Coord, len(pts))
 	for i, p := range pts {
@@ -143,7 +148,8 @@ func newKD(dim int, pts []V) (kdTree, *kdNode) {
 				atEnd = append(atEnd, conv(r))
 			}
 			return
-		}}, kdOf2(t)
+		},
+		func(p V) float64 { return t.Dist(c2(p)) }, t.Empty, t.Leaf}, kdOf2(t)
 }
 
 var kdSizes = []int{0, 1, 2, 3, 3, 4, 4, 5, 5, 7, 7, 8, 8, 16, 16, 16, 33, 33, 33, 100, 200}
@@ -234,6 +240,9 @@ func (g *G) kdCase(dim int) int {
 			}
 		}
 		emit(op, impl)
+		if pan == "" && (tree.empty() != (n == 0) || tree.leaf() != (n <= 1)) {
+			g.PropFail("prop:c08 kd-empty-or-leaf-wrong", fmt.Sprintf("%s %s: %d points, Empty() = %v, Leaf() = %v", op.String(), ts, n, tree.empty(), tree.leaf()))
+		}
 		g.Stat(kind+" trees", 1)
 		if sc < 1 && sc >= 0.25 {
 			g.Stat(kind+" trees on a sub-unit grid", 1)
@@ -344,6 +353,11 @@ func (g *G) kdCase(dim int) int {
 			d := sqDist(dim, p, r)
 			if d != best || member[r] == 0 {
 				g.PropFail("prop:c08 kd-nn-differs-from-scan", op.String()+" "+ts)
+			}
+			// Dist(p) = distance to the nearest stored point: the squared distances are exact here and the
+			// square root is correctly rounded and monotone, so the brute-force answer is sqrt(min sqDist)
+			if dd := tree.dist(p); dd != math.Sqrt(best) {
+				g.PropFail("prop:c08 kd-dist-differs-from-scan", op.String()+" "+ts+" => Dist "+hlib.Hex(dd)+" want "+hlib.Hex(math.Sqrt(best)))
 			}
 			if ties > 1 {
 				g.Stat(kind+" nn ties", 1)
